@@ -6,6 +6,10 @@ import (
 )
 
 var vHarnesses = map[string]func(p []int){
+	"H_C03_binderiv":    func(p []int) { H_C03_binderiv(p[0], p[1]) },
+	"H_C03_autocorr":    func(p []int) { H_C03_autocorr(p[0], p[1]) },
+	"H_C03_cusum":       func(p []int) { H_C03_cusum(p[0], p[1], p[2]) },
+	"H_C03_cusum_cases": func(p []int) { H_C03_cusum_cases(p[0]) },
 	"H_C02_runs":             func(p []int) { H_C02_runs(p[0]) },
 	"H_C02_runs_const":       func(p []int) { H_C02_runs_const(p[0], p[1]) },
 	"H_C02_runsdist":         func(p []int) { H_C02_runsdist(p[0]) },
